@@ -181,7 +181,12 @@ func (b *assignmentBuilder) structFieldAndStructGettersAndFields(lhs bmodel.Node
 			}
 		}
 
-		if c, ok := b.castNode(lhs.ExprType(), rhs); ok {
+		// A struct is copied as a whole only if no notation addresses one of its
+		// members; otherwise it is copied member by member so that the notation applies.
+		memberWise := util.IsStructType(lhs.ExprType()) && util.IsStructType(rhs.ExprType()) &&
+			b.notationTargetsMemberOf(lhs)
+
+		if c, ok := b.castNode(lhs.ExprType(), rhs); ok && !memberWise {
 			rhsExpr := c.AssignExpr()
 			logger.Printf("%v: assignment found: %v = %v", methodPosStr, lhsExpr, rhsExpr)
 			a = gmodel.SimpleField{LHS: lhsExpr, RHS: rhsExpr, Error: c.ReturnsError()}
@@ -222,6 +227,36 @@ func (b *assignmentBuilder) structFieldAndStructGettersAndFields(lhs bmodel.Node
 
 	logger.Warnf("%v: no assignment for %v [%v]", methodPosStr, lhsExpr, b.imports.TypeName(lhs.ExprType()))
 	return gmodel.NoMatchField{LHS: lhsExpr}, nil
+}
+
+// notationTargetsMemberOf reports whether a :skip, :conv, :map or :literal notation
+// addresses a (possibly nested) member of the given destination struct.
+func (b *assignmentBuilder) notationTargetsMemberOf(lhsStruct bmodel.Node) (found bool) {
+	bmodel.IterateStructFields(lhsStruct, func(field bmodel.Node) (done bool) {
+		if !b.isStructFieldAccessible(lhsStruct, field.ObjName()) {
+			return
+		}
+
+		expr := field.MatcherExpr()
+		found = b.opts.ShouldSkip(expr)
+		for _, converter := range b.opts.Converters {
+			found = found || converter.Dst().Match(expr, true)
+		}
+		for _, mapper := range b.opts.NameMapper {
+			found = found || mapper.Dst().Match(expr, true)
+		}
+		for _, mapper := range b.opts.TemplatedNameMapper {
+			found = found || mapper.Dst().Match(expr, true)
+		}
+		for _, setter := range b.opts.Literals {
+			found = found || setter.Dst().Match(expr, true)
+		}
+		if !found && util.IsStructType(field.ExprType()) {
+			found = b.notationTargetsMemberOf(field)
+		}
+		return found
+	})
+	return
 }
 
 // createWithConverter creates an assignment using the given field converter.
